@@ -26,6 +26,7 @@ CONSTANTS Options,      \* set of option names
           Reject,       \* set of <<o1, v1, o2, v2>>
           Infeasible,   \* pairs the generator could not place (reported, must be empty for a complete suite)
           Core,         \* subset of Options enumerated fully (may be empty)
+          CoreSpace,    \* all assignments of the Core options (records over Core), supplied as a product
           Tests,        \* sequence of [Options -> value]
           Emit
 
@@ -41,18 +42,21 @@ WellFormed == \A i \in DOMAIN Tests : /\ DOMAIN Tests[i] = Options
                                       /\ ~Excluded(Tests[i])
 PairExcluded(o1, v1, o2, v2) == <<o1, v1, o2, v2>> \in Excl \/ <<o2, v2, o1, v1>> \in Excl
 PairInfeasible(o1, v1, o2, v2) == <<o1, v1, o2, v2>> \in Infeasible \/ <<o2, v2, o1, v1>> \in Infeasible
+AcceptedTests == {i \in DOMAIN Tests : Accepted(Tests[i])}
+CoveredPairs == UNION {{<<o1, Tests[i][o1], o2, Tests[i][o2]>> : o1 \in Options, o2 \in Options} : i \in AcceptedTests}
 PairwiseComplete ==
+    LET cov == CoveredPairs IN
     \A o1, o2 \in Options : o1 # o2 =>
         \A v1 \in Domain[o1], v2 \in Domain[o2] :
             PairExcluded(o1, v1, o2, v2) \/ PairInfeasible(o1, v1, o2, v2)
             \/ <<o1, v1, o2, v2>> \in Reject \/ <<o2, v2, o1, v1>> \in Reject
-            \/ \E i \in DOMAIN Tests : Accepted(Tests[i]) /\ Tests[i][o1] = v1 /\ Tests[i][o2] = v2
+            \/ <<o1, v1, o2, v2>> \in cov
 RejectCovered == \A q \in Reject : \E i \in DOMAIN Tests : Has(Tests[i], q)
-CoreAssignments == {f \in [Core -> UNION {Domain[o] : o \in Core}] : \A o \in Core : f[o] \in Domain[o]}
 CoreExcluded(f) == \E q \in Excl : q[1] \in Core /\ q[3] \in Core /\ f[q[1]] = q[2] /\ f[q[3]] = q[4]
 CoreRejected(f) == \E q \in Reject : q[1] \in Core /\ q[3] \in Core /\ f[q[1]] = q[2] /\ f[q[3]] = q[4]
-CoreComplete == Core = {} \/ \A f \in CoreAssignments : CoreExcluded(f) \/ CoreRejected(f)
-                                \/ \E i \in DOMAIN Tests : Accepted(Tests[i]) /\ \A o \in Core : Tests[i][o] = f[o]
+CoreProj == {[o \in Core |-> Tests[i][o]] : i \in AcceptedTests}
+CoreSpaceOK == \A f \in CoreSpace : DOMAIN f = Core /\ \A o \in Core : f[o] \in Domain[o]
+CoreComplete == Core = {} \/ (CoreSpaceOK /\ LET proj == CoreProj IN \A f \in CoreSpace : CoreExcluded(f) \/ CoreRejected(f) \/ f \in proj)
 
 Init == t = 0 /\ done = FALSE
 Step == /\ t < Len(Tests) /\ t' = t + 1 /\ UNCHANGED done
